@@ -192,6 +192,7 @@ func runC05(a *A) {
 			a.Und("recv(dataChan)", token.NoPos, "no receive from Stream.dataChan found")
 		}
 	})
+	a.Rule("flow/fresh-channel-per-iteration", 1, func() { a.ruleFreshChannelPerIteration() })
 	a.Rule("flow/sync-sinks-inline", 1, func() {
 		S := a.Named("stream", "Stream")
 		ss := a.FieldOf(S, "syncSinks")
@@ -254,4 +255,53 @@ func derivesFromFieldCopy(v ssa.Value, f *types.Var) bool {
 		}
 	}
 	return false
+}
+
+// ruleFreshChannelPerIteration: the processing loop receives from a reference of Stream.dataChan that
+// was read in the same iteration (not carried over from an earlier one): after an expansion swapped
+// the channel, the very next receive must use the new one, or rows are taken from the old channel
+// while its content is being migrated (order and exactly-once break).
+func (a *A) ruleFreshChannelPerIteration() {
+	fn := a.Method("stream", "DataProcessor", "Process")
+	dc := a.FieldOf(a.Named("stream", "Stream"), "dataChan")
+	n := 0
+	for _, li := range sccLoops(fn) {
+		for b := range li.Blocks {
+			for _, in := range b.Instrs {
+				sel, ok := in.(*ssa.Select)
+				if !ok {
+					continue
+				}
+				for _, st := range sel.States {
+					if st.Dir != types.RecvOnly {
+						continue
+					}
+					fresh, isData := false, false
+					var stale string
+					for _, leaf := range phiLeaves(st.Chan) {
+						d, c := isDataChan(leaf, dc)
+						if !d && !c {
+							continue
+						}
+						isData = true
+						lin, isIn := leaf.(ssa.Instruction)
+						if isIn && li.Blocks[lin.Block()] && dominatesInstr(lin, in) {
+							fresh = true
+						} else {
+							stale = a.pos(leaf.Pos())
+						}
+					}
+					if !isData {
+						continue
+					}
+					n++
+					a.Check(fresh && stale == "", fname(fn)+"#channel-read-each-iteration", in.Pos(), "the input channel reference is re-read in every iteration before receiving",
+						"the processing loop can receive from a channel reference read at "+stale+" in an earlier iteration (or before the loop): after an expansion swaps the channel, rows are still taken from the old one while it is migrated, so emission order and exactly-once processing break")
+				}
+			}
+		}
+	}
+	if n == 0 {
+		a.Und(fname(fn)+"#channel-read-each-iteration", fn.Pos(), "no receive from the input channel found in the processing loop")
+	}
 }
